@@ -269,11 +269,12 @@ def run(prop, tier):
         "model Split/Split.v composed from the tokenizer model (tied by translation), the exact energy decision (C07), Split/Duration.v and IO/Reader.v; split() itself is tied by correspondence on synthesized audio whose window energies are far from the threshold",
         "region start/end/duration are compared bit-exactly with Flocq binary64 computations; their arithmetic (start = first window x the reader's block duration, duration = bytes / (rate x width x channels), end = start + duration, and the arguments split() passes) is translated from /repo on every run and proved equal to Split.region_start / region_duration / region_end (harness/py2coq/misc.py group times, TieTimes.v)",
         "extraction (ExtrOcamlBasic only) + OCaml driver, cross-checked by vm_compute on a sample; file system, wave module and sys.stdin replacement exercised, not modelled",
+        "alias lookups (C09): every expression of core.py / io.py / util.py that looks a parameter up under its long name and its alias is evaluated symbolically on every run, on a dictionary where each key is absent or present with an opaque value, and compared with Split.resolve (harness/py2coq/alias.py, TieAlias.v)",
     ]
     tie = None
-    if prop == "C05":
+    if prop in ("C05", "C09"):
         from ..py2coq import misctie
-        tie = misctie.tie_group("times")
+        tie = misctie.tie_group("times" if prop == "C05" else "alias")
         proof["tie_obligations"] = tie["obligations"]
         if not tie["ok"]:
             proof["undischarged"] = tie["obligations"]
@@ -520,7 +521,7 @@ def run(prop, tier):
         res.add_violation(viol["what"], viol)
     elif tie is not None and not tie["ok"] and not mism:
         res.tie_undischarged("translation tie broken: " + tie["detail"][:700] + " -- the correspondence (bytes and bit-exact times) agrees everywhere and the statement's oracle found no failing input",
-                             {"no_longer_checks": "TieTimes.v", "tie_detail": tie["detail"]})
+                             {"no_longer_checks": "TieTimes.v" if prop == "C05" else "TieAlias.v", "tie_detail": tie["detail"]})
     elif mism:
         m, i, o = mism[0]
         res.add_violation("model and implementation differ on %r; the statement's own oracle found no failing input" % (m,),
